@@ -39,6 +39,9 @@ that mix variants, `limit_words()`), C11 (bodies naming the same file descriptor
 kinds `hh`, `ah`, `hv`, theorem `C11_typed_hh`), C29 (bursts containing NO_REPLY_EXPECTED calls on a spawn-disabled
 interface), C30 (a handler removing its own interface, from `&mut self` and `&self` handlers with a queued writer),
 C39 (proxies whose property cache has started among the outstanding handles; theorem `C39_proxy_owns_cache`),
+C33 (property reads through one *persistent* caching proxy before and after a change, all four emits-changed modes;
+theorem `C33_cached_read_after_write`), C19 (first only `no-failing-input-found`: a write script `L` that lets the
+reply be processed while the caller is still inside `send()`, theorem `C19_noreply_late`),
 C05 builder's m4 (offsets pointing into the offsets area). After strengthening every one of them is reported with a
 failing input. A change reported as `no-failing-input-found` is still a VIOLATION (the theorem or the
 correspondence named in the replay file no longer checks) — this happens where the broken behaviour needs a schedule
@@ -56,8 +59,10 @@ confirmed on the real code, listed in `known_findings/<id>.jsonl`), the `_partia
 statement outside the decidable class of that defect. `known (open)` are the classes for which the check prints
 `KNOWN-FINDING:` and exits 0; `fixed` are the classes repaired by a `fix:` commit in /repo (their witnesses run on
 every check and must pass). All theorems are closed under the global context (`Print Assumptions`, re-checked on
-every run; `coqchk` in the thorough tier). The wall times are from the last run in this sandbox (a loaded machine; a
-fresh copy ran all 39 quick checks plus setup in about 26 minutes).
+every run; `coqchk` in the thorough tier). The wall times are from the last run in this sandbox (on the quiet machine
+all 39 quick checks take about 18 minutes in sequence; a fresh copy ran setup plus all of them in about 26 minutes).
+Every thorough tier was run once on the final models and exits 0 on the unchanged tree (C35's thorough tier, 168
+feature-combination builds, needs more than 45 minutes on a loaded machine).
 
 """ + stat
 open(p, "w").write(s)
